@@ -263,6 +263,7 @@ func (w *world) step(i int, st simcore.Step) bool {
 		}
 		pool := ps.pool
 		owner := ps.owner
+		w.claimDust(ps) // the full withdrawal inside claims the spread rewards: the sub-unit remainder goes to the pool mates
 		delete(w.pos, ps.id)
 		pool.ops += 3
 		{
@@ -316,6 +317,7 @@ func (w *world) step(i int, st simcore.Step) bool {
 			w.notePrecision(ps.pool, decToRat(liq), sqrtAtTick(ps.lower), bigDecToRat(sq))
 		}
 		if liq.Equal(ps.liq) {
+			w.claimDust(ps) // a full withdrawal claims the spread rewards: the sub-unit remainder goes to the pool mates
 			delete(w.pos, ps.id)
 			run.Probe("full-withdraw")
 			if len(w.poolPositions(ps.pool)) == 0 {
@@ -518,6 +520,7 @@ func (w *world) step(i int, st simcore.Step) bool {
 			to = (to + 1) % w.users
 		}
 		spreadBefore, _ := n.App.ConcentratedLiquidityKeeper.GetClaimableSpreadRewards(n.Ctx, ps.id)
+		incBefore, forfBefore, incErrBefore := n.App.ConcentratedLiquidityKeeper.GetClaimableIncentives(n.Ctx, ps.id)
 		res := deliver(&cltypes.MsgTransferPositions{PositionIds: []uint64{ps.id}, Sender: n.Accts[ps.owner].String(), NewOwner: n.Accts[to].String()})
 		if !res.OK() {
 			return !run.Stop()
@@ -528,6 +531,16 @@ func (w *world) step(i int, st simcore.Step) bool {
 			if run.Enabled("C08") {
 				return false
 			}
+		}
+		// the same for incentives, matured and not yet matured alike: a transfer moves the position, not its age
+		if incAfter, forfAfter, err := n.App.ConcentratedLiquidityKeeper.GetClaimableIncentives(n.Ctx, ps.id); incErrBefore == nil && (err != nil || !incAfter.Equal(incBefore) || !forfAfter.Equal(forfBefore)) {
+			run.Fail("C08", "transfer-keeps-rewards", "incentives", "position %d could claim %s in incentives (and would forfeit %s) before the transfer, %s (forfeit %s, err %v) right after it in the same block", ps.id, incBefore, forfBefore, incAfter, forfAfter, err)
+			if run.Enabled("C08") {
+				return false
+			}
+		}
+		if !forfBefore.IsZero() {
+			run.Probe("position-with-immature-incentives-transferred")
 		}
 		ps.owner = to
 		ps.clean = false
